@@ -100,7 +100,10 @@ def center_find(image, centers=1, threshold=.5, blursize=3.):
         # (g_x / s_x**2, g_y / s_y**2) in pixel units
         x_step = np.diff(image.x.values)[0]
         y_step = np.diff(image.y.values)[0]
-        col_deriv = col_deriv * (y_step / x_step) ** 2
+        if not np.isclose(abs(y_step / x_step), 1):
+            # (square pixels -- up to the rounding of their coordinates --
+            # are left exactly as they are)
+            col_deriv = col_deriv * (y_step / x_step) ** 2
     res = hough(col_deriv, row_deriv, centers, threshold)
     if centers==1:
         res = res[0]
